@@ -1,11 +1,96 @@
-"""C02 — uses the shared scaled_integer harness (C01.h) with its own section."""
-import os, sys
+"""C02 — uses the shared scaled_integer harness (C01.h) with its own section for built-in representations, and
+C02w.h for scaled_integer over wrapped representations (elastic_integer, overflow_integer)."""
+import os, random, sys
 sys.path.insert(0, os.path.dirname(os.path.abspath(__file__)))
 import C01
 
+ECT = C01.ECT
+TAGS = {'nat': 'cnl::native_overflow_tag', 'sat': 'cnl::saturated_overflow_tag', 'thr': 'cnl::_impl::throwing_overflow_tag',
+        'trp': 'cnl::trapping_overflow_tag', 'und': 'cnl::undefined_overflow_tag'}
+WHDR = os.path.join(os.path.dirname(os.path.abspath(__file__)), 'C02w.h')
+
+
+def elastic_grid(tier, seed):
+    """(digits, narrowest, exponent) of dividend and divisor, radix"""
+    fixed = [
+        # the four signedness mixes of the narrowest types, different digit counts and exponents
+        (12, 'i32', -4, 10, 'i32', -2, 2), (12, 'u32', -4, 10, 'u32', -2, 2), (12, 'i32', -4, 10, 'u32', -2, 2), (12, 'u32', -4, 10, 'i32', -2, 2),
+        # unsigned operands filling the whole width (8/16/32/64) of their storage, either side, against signed ones
+        (32, 'u32', -16, 8, 'i32', -2, 2), (8, 'i32', -2, 32, 'u32', -16, 2), (64, 'u64', 0, 10, 'i16', 3, 2), (10, 'i16', 0, 64, 'u64', -3, 2),
+        (8, 'u8', 0, 5, 'i8', 0, 2), (7, 'i8', 0, 8, 'u8', -3, 2), (16, 'u16', -8, 7, 'i8', -2, 2), (9, 'i16', 2, 16, 'u16', 0, 2),
+        (32, 'u32', 0, 31, 'i32', 0, 2), (31, 'i32', 5, 32, 'u32', -30, 2), (64, 'u64', -40, 63, 'i64', 1, 2), (33, 'u32', -16, 8, 'i8', -2, 2),
+        # decimal exponents; small formats exhaustively
+        (32, 'u32', -3, 20, 'i32', 0, 10), (8, 'i8', -1, 32, 'u32', -4, 10), (12, 'u16', -2, 10, 'i16', 0, 10), (5, 'u8', 0, 5, 'i8', 1, 2),
+        (4, 'i8', -2, 5, 'u8', 0, 10), (40, 'i32', -20, 10, 'i32', -2, 2),
+    ]
+    rnd = random.Random(seed * 5701 + 29)
+    out = list(fixed)
+    n = len(fixed) + (5 if tier == 'quick' else 40)
+    while len(out) < n:
+        nl, nr = rnd.choice(list(ECT)), rnd.choice(list(ECT))
+        full = lambda t: int(t[1:])
+        dl = rnd.choice([full(nl) if nl[0] == 'u' else full(nl) - 1, 3, 6, 11, 17, 24, 31, 32, 33, 40, 63, 64])
+        dr = rnd.choice([full(nr) if nr[0] == 'u' else full(nr) - 1, 3, 6, 11, 17, 24, 31, 32, 33, 40, 63, 64])
+        rx = rnd.choice([2, 2, 2, 10])
+        el, er = (rnd.randint(-30, 30), rnd.randint(-30, 30)) if rx == 2 else (rnd.randint(-4, 3), rnd.randint(-4, 3))
+        c = (dl, nl, el, dr, nr, er, rx)
+        if c not in out:
+            out.append(c)
+    return out
+
+
+def overflow_grid(tier, seed):
+    """(tag, rep, exponent, rep, exponent, radix); a checked tag gets operands of the same signedness"""
+    out = []
+    for tg in ('trp', 'thr', 'sat', 'und', 'nat'):
+        out += [(tg, 'i32', -8, 'i32', -4, 2), (tg, 'i64', -20, 'i64', 3, 2)]
+    rnd = random.Random(seed * 3319 + 5)
+    tags = ['trp', 'thr', 'sat', 'und']
+    rnd.shuffle(tags)
+    rest = [('i16', -8, 'i8', -4, 2), ('i8', 0, 'i8', 0, 2), ('u32', 0, 'u32', -3, 2), ('u8', 2, 'u16', -1, 2), ('i32', -2, 'i32', -2, 10),
+            ('i64', -1, 'i32', 2, 10), ('i32', 0, 'i64', -40, 2), ('u64', -5, 'u64', -5, 2), ('i8', -3, 'i32', 0, 2)]
+    for i, c in enumerate(rest):
+        out.append((tags[i % 4],) + c)
+    out += [('nat', 'u32', -8, 'i32', -4, 2), ('nat', 'i64', 0, 'u16', 3, 2), ('nat', 'i8', -1, 'u8', -1, 10)]
+    n = len(out) + (4 if tier == 'quick' else 40)
+    signed = [t for t in ECT if t[0] == 'i']
+    unsigned = [t for t in ECT if t[0] == 'u']
+    while len(out) < n:
+        tg = rnd.choice(['trp', 'thr', 'sat', 'und', 'nat'])
+        pool = list(ECT) if tg == 'nat' else rnd.choice([signed, signed, unsigned])
+        a = rnd.choice(pool)
+        b = rnd.choice(list(ECT) if tg == 'nat' else pool)
+        rx = rnd.choice([2, 2, 2, 10])
+        e1, e2 = (rnd.randint(-40, 20), rnd.randint(-40, 20)) if rx == 2 else (rnd.randint(-4, 3), rnd.randint(-4, 3))
+        c = (tg, a, e1, b, e2, rx)
+        if c not in out:
+            out.append(c)
+    return out
+
 
 def tus(tier, seed):
-    return C01.tus(tier, seed, section='C02')
+    res = C01.tus(tier, seed, section='C02')
+    eg = elastic_grid(tier, seed)
+    for i in range(0, len(eg), 3):
+        body = '#define SEC_C02E 1\n#include "%s"\nint main(){ install(); Rng rng(seed_from_env()+7000+%d);\n' % (WHDR, i)
+        for (dl, nl, el, dr, nr, er, rx) in eg[i:i + 3]:
+            body += '  ego<%d, %s, %d, %d, %s, %d, %d>(rng);\n' % (dl, ECT[nl], el, dr, ECT[nr], er, rx)
+        body += '}\n'
+        comp = 'clang++' if (tier == 'thorough' and (i // 3) % 4 == 3) else 'g++'
+        res.append(dict(name='C02_elastic_%d' % (i // 3), src=body, compiler=comp))
+    og = overflow_grid(tier, seed)
+    for i in range(0, len(og), 3):
+        body = '#define SEC_C02O 1\n#define SEC_C02OQ 1\n#include "%s"\nint main(){ install(); Rng rng(seed_from_env()+8000+%d);\n' % (WHDR, i)
+        for (tg, a, e1, b, e2, rx) in og[i:i + 3]:
+            body += '  ogo<%s, %s, %d, %s, %d, %d>(rng);\n' % (TAGS[tg], ECT[a], e1, ECT[b], e2, rx)
+        body += '}\n'
+        comp = 'clang++' if (tier == 'thorough' and (i // 3) % 4 == 3) else 'g++'
+        res.append(dict(name='C02_overflow_%d' % (i // 3), src=body, compiler=comp))
+    return res
 
 
-RULE = C01.RULE
+RULE = C01.RULE + ("; wrapped representations (C02w): per compiled (digits, narrowest, exponent) pair of elastic_integer representations and per "
+                   "(overflow tag, representation, exponent) pair of overflow_integer representations, the value lattices of both operands "
+                   "cross-multiplied (declared range ends, powers of two up to the top bit of the storage with neighbours, halves, thirds, "
+                   "seeded random); non-trivial = non-zero divisor, operands within the declared range / kept by the usual arithmetic "
+                   "conversions, not lowest / -1")
